@@ -202,6 +202,10 @@ class C11(common.ModelProperty):
         st.stats["probe:read-back-with-caching-on-and-off"] += 1
         reads = []
         for a, b in list(dict.fromkeys(pairs))[:6]:
+            # a filtered look first: its answer must not become the answer of
+            # the plain question that follows
+            reads.append({"op": "neighbors", "v": a, "unk": "nb", "ff": "reject"})
+            reads.append({"op": "neighbors", "v": a, "unk": "nb", "ff": "even"})
             reads.append({"op": "find_links", "a": a, "b": b})
             reads.append({"op": "find_links", "a": a, "b": b, "ds": True})
             reads.append({"op": "neighbors", "v": a, "unk": "nb"})
@@ -244,6 +248,16 @@ class C11(common.ModelProperty):
                     "C11/read-back:neighbors-differ-from-input",
                     {"op": op, "vertex": a, "got": got["ret"], "input": want},
                 )
+        if directed:
+            # read backwards, every vertex sees exactly those that list it
+            for a in dict.fromkeys(named):
+                got = st.ex.apply({"op": "neighbors", "v": a, "dir": "back", "unk": "err"})
+                want = [x for (x, b) in pairs if b == a]
+                if "exc" in got or collections.Counter(got["ret"]) != collections.Counter(want):
+                    return engine.viol(
+                        "C11/read-back:backward-neighbors-differ-from-input",
+                        {"op": op, "vertex": a, "got": got, "input": want},
+                    )
         for a, b in dict.fromkeys(pairs):
             got = st.ex.apply({"op": "find_links", "a": a, "b": b, "ds": True, "unk": "err"})
             if "exc" in got:
